@@ -12,25 +12,34 @@ from ..spec.slots import SLOT_DIMENSION
 from . import common as C
 
 ID = 'C07'
-TECHNIQUE = ('ast + reaching definitions: boolean-context uses of float-or-quantity parameters, slot/dimension/name '
-             'agreement at every PreferredUnits coercion site and in all presets (literal tables incl. TOML), and an '
-             'inventory of every place a preferred unit, a display unit or a display value can reach a number')
+TECHNIQUE = ('ast + reaching definitions: boolean-context uses of float-or-quantity parameters, '
+             'slot/dimension/name agreement at every PreferredUnits coercion site and in all presets (literal'
+             ' tables incl. TOML), and an inventory of every place a preferred unit, a display unit or a '
+             'display value can reach a number')
 DECIDED = [
-    'R1 no float-or-quantity parameter is tested for truthiness to decide whether it was given (so a bare 0 means '
-    '0 in the preferred unit, like the explicit quantity)',
-    'R2 every coercion PreferredUnits.<slot>(x) uses a slot of the dimension the parameter is annotated with, the slot '
-    'named like the parameter when there is one; class defaults, defaults() and the four TOML presets give every one '
-    'of the 15 slots a unit of its own dimension',
-    'R3 a preferred unit, a display unit or a display value never feeds a number on the compute path: slots are only '
-    'called as coercions or used as the unit operand of >> / << in presentation functions; elsewhere the unit operand '
-    'is a literal unit or a unit parameter; .units/.unit_value occur only in the re-wrap idiom; coercing an existing '
-    'quantity with a preferred unit hands back that very object (evaluated); no memoised function reads PreferredUnits',
-    'R4 inside the package no plain number extracted in a fixed unit (q >> U, .raw_value, arithmetic on such, a '
-    'non-zero constant) is passed to a parameter that the callee reads through PreferredUnits.<slot>(p): every such '
-    'call site (module functions, constructors, self.method) is enumerated',
+    'R1 no float-or-quantity parameter is tested for truthiness to decide whether it was given (so a bare 0 '
+    'means 0 in the preferred unit, like the explicit quantity)',
+    'R2 every coercion PreferredUnits.<slot>(x) uses a slot of the dimension the parameter is annotated with,'
+    ' the slot named like the parameter when there is one; class defaults, defaults() and the four TOML '
+    'presets give every one of the 15 slots a unit of its own dimension',
+    'R3 a preferred unit, a display unit or a display value never feeds a number on the compute path: slots '
+    'are only called as coercions or used as the unit operand of >> / << in presentation functions; elsewhere'
+    ' the unit operand is a literal unit or a unit parameter; .units/.unit_value occur only in the re-wrap '
+    'idiom; coercing an existing quantity with a preferred unit hands back that very object (evaluated); no '
+    'memoised function reads PreferredUnits',
+    'R4 inside the package no plain number extracted in a fixed unit (q >> U, .raw_value, arithmetic on such,'
+    ' a non-zero constant) is passed to a parameter that the callee reads through PreferredUnits.<slot>(p): '
+    'every such call site (module functions, constructors, self.method) is enumerated',
+    'R5 a parameter declared as number-or-quantity is not read as a number while its entry value still '
+    'reaches the use (reaching definitions over the statement CFG): only hand-overs (arguments, assignments, '
+    'returns), presence tests and sign tests against the literal 0 of a linear dimension occur before the '
+    'coercion; R3 also refutes a coercion applied, when it is used, to a stored field that some setter or '
+    'constructor stores as it arrives (the bare number would follow the setting in force at the time of use)',
 ]
-NOT_DECIDED = ['nothing further: bit-for-bit independence follows from R3 together with C13.R1 (coercing an existing '
-               'quantity rewrites only its display unit) and is not separately measured']
+NOT_DECIDED = [
+    'nothing further: bit-for-bit independence follows from R3 together with C13.R1 (coercing an existing '
+    'quantity rewrites only its display unit) and is not separately measured',
+]
 
 NUMERIC = {'float', 'int'}
 
@@ -374,6 +383,65 @@ def _deferred_coercion(prog: Program, mod, f, call: ast.Call):
     return None
 
 
+def check_raw_numeric_use(prog: Program, rep, rule: str) -> None:
+    """A parameter declared as number-or-quantity is a bare number in an unknown (preferred) unit until it has been
+    coerced.  Over the statement CFG with reaching definitions: every use that the parameter's entry value still reaches
+    must be a hand-over (argument of a call - the coercion among them -, an assignment, a return), a presence test
+    (`is None`, truthiness, isinstance) or a sign test against the literal 0 of a linear dimension.  Arithmetic on it,
+    float() / int() / abs() / round() of it, or a comparison with anything else reads the bare number in a fixed
+    unit."""
+    from ..cfg import CFG, reaching_definitions
+    dims = set(C.dimension_classes(prog))
+    n_params = n_uses = 0
+    for m in prog.modules.values():
+        if m.name.startswith('py_ballisticcalc.visualize') or m.name.endswith('.example'):
+            continue
+        for f in m.funcs.values():
+            a = f.node.args
+            cands = []
+            for x in a.posonlyargs + a.args + a.kwonlyargs:
+                t = norm(x.annotation) if x.annotation is not None else ''
+                ds = [d for d in dims if d in t]
+                if ('float' in t or 'int' in t) and ds:
+                    cands.append((x.arg, ds[0]))
+            if not cands:
+                continue
+            cfg = CFG(f.node)
+            rd = reaching_definitions(cfg, f.params)
+            for pname, dim in cands:
+                n_params += 1
+                for n in cfg.nodes:
+                    if n.ast is None or cfg.entry.id not in rd[n.id].get(pname, set()):
+                        continue
+                    root = n.ast.iter if n.kind == 'for' else n.ast
+                    for x in ast.walk(root):
+                        if not (isinstance(x, ast.Name) and x.id == pname and isinstance(x.ctx, ast.Load)):
+                            continue
+                        n_uses += 1
+                        par = parent(x)
+                        bad = None
+                        if isinstance(par, ast.Call) and x in par.args and (dotted(par.func) or '').split('.')[-1] in (
+                                'float', 'int', 'abs', 'round', 'fabs', 'sqrt'):
+                            bad = f'`{norm(par)[:50]}` takes the number out of it'
+                        elif isinstance(par, ast.BinOp) and not isinstance(par.op, (ast.RShift, ast.LShift)):
+                            bad = f'arithmetic `{norm(par)[:50]}`'
+                        elif isinstance(par, ast.UnaryOp) and isinstance(par.op, (ast.USub, ast.UAdd)):
+                            bad = f'arithmetic `{norm(par)[:50]}`'
+                        elif isinstance(par, ast.Compare) and not all(isinstance(o, (ast.Is, ast.IsNot)) for o in par.ops):
+                            others = [c_ for c_ in [par.left] + list(par.comparators) if c_ is not x]
+                            zero = all(isinstance(c_, ast.Constant) and not isinstance(c_.value, bool) and c_.value == 0 for c_ in others)
+                            if not (zero and dim != 'Temperature'):
+                                bad = f'comparison `{norm(par)[:50]}`'
+                        if bad:
+                            rep.fail(rule, m.path, x.lineno, f.qualname, f'raw:{pname}',
+                                     f'{f.qualname}: parameter `{pname}` (a number or a {dim}) is used before it is coerced - {bad}: a '
+                                     f'bare number, which is in the preferred unit of the day, is read as if it were in a fixed unit')
+    if n_params < 20:
+        raise AnalysisError(f'only {n_params} number-or-quantity parameters found: the annotations are not read any more')
+    rep.ok(rule, 'py_ballisticcalc', f'{n_params} number-or-quantity parameters, {n_uses} uses before coercion: hand-overs, presence '
+           f'tests and sign tests only')
+
+
 def check_no_leak(prog: Program, rep, rule: str) -> None:
     umod = prog.module(C.M_UNIT)
     for mod in prog.modules.values():
@@ -642,6 +710,8 @@ def run(prog: Program, rep, thorough: bool) -> None:
     check_truthiness(prog, rep, 'C07.R1')
     check_slots(prog, rep, 'C07.R2')
     check_no_leak(prog, rep, 'C07.R3')
+    rep.rule('C07.R5', 'a number-or-quantity parameter is not read as a number before it is coerced', 1)
+    check_raw_numeric_use(prog, rep, 'C07.R5')
     check_coercion_identity(prog, rep, 'C07.R3')
     rep.rule('C07.R4', 'no plain number in a fixed unit is handed to a parameter that reads bare numbers in a preferred unit', 3)
     check_number_handoff(prog, rep, 'C07.R4')
